@@ -345,12 +345,101 @@ def _search(gen):
     return search
 
 
+# ---------------------------------------------------------------- the regenerated functions (gen/c2coq.py)
+# src_csimple_* cases run the real C on one side and, on the model side, the Gallina functions that
+# gen/c2coq.py regenerated from the current src/varintChainedSimple.c (coq/gen/Src_csimple.v, loops
+# rendered with c_while and 64 iterations of fuel): a test of the translator, on admissible inputs only.
+
+SRC_TRUSTED = ["gen/c2coq.py (C-to-Gallina translator: clang 14 typed AST -> coq/gen/Src_csimple.v; supported subset and "
+               "assumptions in its docstring) and coq/theories/CSem.v; validated per run only by executing the generated "
+               "functions against the C (src_csimple_* cases)"]
+SRC_ASSUME = ["Properties_*_src.v are about src_<f>, the rendering of the CURRENT source text regenerated on every run "
+              "(loops: for every fuel >= the stated bound); that rendering is tied to the compiled C by the translator + "
+              "CSem.v (trusted), not by proof"]
+
+
+def _rbuf(rng, n):
+    return [rng.randint(0, 255) for _ in range(n)]
+
+
+def generate_src(rng, tier):
+    pool = _pool()
+    n = _rand_n(tier, 600, 20000)
+    for x in pool + [rand_u64(rng) for _ in range(n)]:
+        enc = ref_csimple(x)
+        L = len(enc) if rng.random() < 0.5 else rng.randint(len(enc), 12)
+        yield "src_csimple_enc %d %s" % (x, hexs(_rbuf(rng, L)))
+        yield "src_csimple_len %d" % x
+        yield "src_csimple_dec %s %d" % (hexs(enc), rand_u64(rng))
+        if x <= U32:
+            yield "src_csimple_enc32 %d %s" % (x, hexs(_rbuf(rng, rng.randint(len(enc), 8))))
+            yield "src_csimple_dec32 %s %d" % (hexs(enc), rand_u64(rng) & U32)
+            yield "src_csimple_dec32f %s %d" % (hexs(enc), rand_u64(rng) & U32)
+    for bs in _malformed(rng, n // 2):
+        yield "src_csimple_dec %s %d" % (hexs(bs), rand_u64(rng))
+        yield "src_csimple_dec32 %s %d" % (hexs(bs), rand_u64(rng) & U32)
+
+
+def _o_src_enc(args, c):
+    x, buf = int(args[0]), list(bytes.fromhex(args[1][1:]))
+    if "fault" in c:
+        return "fault=%s (access outside the exact-size buffer)" % c["fault"]
+    if c.get("buf") in ("lo", "hi"):
+        return "write outside the destination (%s)" % c["buf"]
+    out, enc = list(bytes.fromhex(c["buf"][1:])), ref_csimple(x)
+    if int(c["ret"]) != len(enc) or out[:len(enc)] != enc:
+        return "wrote %s (returned %s), the reference encoding of %d is %s" % (c["buf"], c["ret"], x, hexs(enc))
+    if out[len(enc):] != buf[len(enc):]:
+        return "bytes beyond the %d bytes of the encoding were modified" % len(enc)
+    return None
+
+
+def _o_src_len(args, c):
+    x = int(args[0])
+    return None if int(c.get("ret", -1)) == ref_len(x) else "length %s, %d needs %d" % (c.get("ret"), x, ref_len(x))
+
+
+def _o_src_dec(mask):
+    def o(args, c):
+        bs = list(bytes.fromhex(args[0][1:]))
+        if "fault" in c:
+            return "read beyond the varint (fault=%s)" % c["fault"]
+        r = ref_csimple_decode(bs)
+        if r is None:
+            return None
+        w, v = r
+        if int(c["ret"]) != w or int(c["v"]) != (v & mask):
+            return "decoded (%s,%s), the reference gives (%d,%d)" % (c["ret"], c["v"], w, v & mask)
+        return None
+    return o
+
+
+SRC_ORACLES = {"src_csimple_enc": _o_src_enc, "src_csimple_enc32": _o_src_enc, "src_csimple_len": _o_src_len,
+               "src_csimple_dec": _o_src_dec(U64), "src_csimple_dec32": _o_src_dec(U32),
+               "src_csimple_dec32f": _o_src_dec(U32)}
+
+
+def classify_src(case, m):
+    api = case.split(" ", 1)[0]
+    return ("src-%s-ret%s" % (api[12:], m.get("ret"))) if api.startswith("src_csimple_") else None
+
+
+def _gen_c01(rng, tier):
+    yield from generate_C01(rng, tier)
+    yield from generate_src(random.Random(rng.getrandbits(48)), tier)
+
+
+def _classify_c01(case, m):
+    return classify_src(case, m) or classify(case, m)
+
+
 PARTS = {
-    "C01": dict(coq_props=["Properties_C01_chained"], files=FILES, rule=RULE_C01, generate=generate_C01,
-                oracles=ORACLES_C01, classify=classify, search=_search(generate_C01),
+    "C01": dict(coq_props=["Properties_C01_chained"], files=FILES, rule=RULE_C01, generate=_gen_c01,
+                oracles=dict(ORACLES_C01, **SRC_ORACLES), classify=_classify_c01, search=_search(generate_C01),
+                trusted_base=SRC_TRUSTED,
                 assumptions=["32-bit entry points are the macros varintChained_getVarint32/putVarint32 "
                              "(varintChainedGetVarint32 is compiled without its 1-byte case and is only called "
-                             "on encodings of 2 bytes and more)"],
+                             "on encodings of 2 bytes and more)"] + SRC_ASSUME,
                 configs_quick=["pinned", "O0"]),
     "C04": dict(coq_props=["Properties_C04_chained"], files=FILES, rule=RULE_C04, generate=generate_C04,
                 oracles=ORACLES_C04, classify=classify, search=_search(generate_C04),
